@@ -4,7 +4,11 @@ pub mod h_comb {
 pub mod h_prim {
     include!(concat!(env!("CHUMSKY_VERIF_DIR"), "/h_prim.rs"));
 }
+pub mod h_comb2 {
+    include!(concat!(env!("CHUMSKY_VERIF_DIR"), "/h_comb2.rs"));
+}
 pub fn register_all(r: &mut Vec<(&'static str, fn())>) {
     h_comb::register(r);
     h_prim::register(r);
+    h_comb2::register(r);
 }
